@@ -7,7 +7,7 @@ from ..cfg import CFG
 from ..errors import AnalysisError
 from ..model import ClassInfo, FuncInfo, dotted, mangle, src, walk_scope
 from ..report import Context
-from ..util import calls_in, dep_leaves, expand_forms, is_self_attr, kwarg, normaliser, parse_expr, reaching_events, returns_of
+from ..util import assigned_value, calls_in, dep_leaves, expand_forms, is_self_attr, kwarg, normaliser, parse_expr, reaching_events, returns_of
 from . import c08
 from .c08 import loss_classes, reachable_in_class
 
@@ -393,7 +393,8 @@ def r3_gsl(ctx: Context) -> None:
             role_names["nb_values"] = src(cl.args[3])
     for role, attr in (("nb_values", "self.nb_values"), ("nb_word_lengths", "self.nb_word_lengths")):
         nm = role_names.get(role, role)
-        d = _assigned(c1, nm)
+        av = assigned_value(c1.node.body, lambda t, nm=nm: isinstance(t, ast.Name) and t.id == nm)
+        d = [av] if av is not None else _assigned(c1, nm)
         ok = len(d) == 1 and isinstance(d[0], ast.IfExp) and n1.canon(d[0].test) in (n1.canon(parse_expr(f"{attr} is None")),) and \
             str(n1.rat(d[0].body)) == str(n1.rat(parse_expr(f"int((len({real1}) - 1) / 2.0)"))) and src(d[0].orelse) == attr
         ctx.check(ok, "R3.gsl-defaults", f"GslDivLoss.compute_loss_1d:default:{role}", f"{role} defaults to int((T-1)/2), else the configured value", f"{role} is `{src(d[0]) if d else '?'}`", c1, d[0] if d else c1.node)
